@@ -80,6 +80,7 @@ type simCfg struct {
 	Plugins []config.PluginConfig `json:"plugins"`
 	Token   string                `json:"token"`
 	WsPool  bool                  `json:"wspool"`
+	Sys     bool                  `json:"sys"` // record the whole abstract state after every step (spec/TraceSystem.tla)
 }
 
 type step struct {
@@ -310,8 +311,8 @@ func hostOf(name string) string {
 
 type fakeConn struct{ closed bool }
 
-func (c *fakeConn) Read(b []byte) (int, error)         { return 0, errors.New("fake") }
-func (c *fakeConn) Write(b []byte) (int, error)        { return len(b), nil }
+func (c *fakeConn) Read(b []byte) (int, error)  { return 0, errors.New("fake") }
+func (c *fakeConn) Write(b []byte) (int, error) { return len(b), nil }
 func (c *fakeConn) Close() error {
 	time.Sleep(time.Millisecond) // closing takes a (virtual) moment: whoever else wants to run does
 	c.closed = true
@@ -583,6 +584,44 @@ func (s *sim) snapshot(label string) {
 		"limited": m.RateLimitedRequests, "backends": bm, "health": hb, "list": list, "strategy": s.cfg.LoadBalancer.Strategy})
 }
 
+// sysSnap records, after a step, everything spec/System.tla keeps: breaker state and counters, passive failure
+// counts, health flags in list order, the published totals and the breaker state as the metrics collector shows it
+func (s *sim) sysSnap() {
+	if !s.sc.Cfg.Sys || s.lb == nil {
+		return
+	}
+	ev := map[string]any{"ev": "sys"}
+	bk := map[string]any{"state": "closed", "f": 0, "s": 0, "r": 0}
+	if cb := s.lb.VerifBreaker(); cb != nil {
+		f, su, r := cb.Counts()
+		st := map[circuitbreaker.State]string{circuitbreaker.StateClosed: "closed", circuitbreaker.StateOpen: "open", circuitbreaker.StateHalfOpen: "half"}[cb.State()]
+		bk = map[string]any{"state": st, "f": f, "s": su, "r": r}
+	}
+	ev["bk"] = bk
+	order := []string{}
+	flags := map[string]any{}
+	pf := map[string]any{}
+	for _, b := range s.lb.ListBackends() {
+		order = append(order, b.Name)
+		flags[b.Name] = b.Healthy
+		pf[b.Name] = s.lb.VerifPassiveCount(b.Name)
+	}
+	ev["order"], ev["flags"], ev["pf"] = order, flags, pf
+	m := s.lb.GetMetricsCollector().GetMetrics()
+	ev["met"] = map[string]any{"total": m.TotalRequests, "ok": m.SuccessfulRequests, "failed": m.FailedRequests, "limited": m.RateLimitedRequests}
+	mb := map[string]any{}
+	for n, b := range m.BackendMetrics {
+		mb[n] = map[string]any{"total": b.TotalRequests, "failed": b.FailedRequests}
+	}
+	ev["mb"] = mb
+	cbm := "none"
+	for _, c := range m.CircuitBreakerMetrics {
+		cbm = map[string]string{"CLOSED": "closed", "OPEN": "open", "HALF-OPEN": "half"}[c.State]
+	}
+	ev["cbm"] = cbm
+	emit(ev)
+}
+
 func (s *sim) doAdmin(st step) {
 	var req *http.Request
 	switch st.Op {
@@ -636,6 +675,7 @@ func (s *sim) run() {
 		return
 	}
 	for _, st := range s.sc.Steps {
+		s.sysSnap() // the state before this step = after the previous one
 		switch st.A {
 		case "tick":
 			n := st.N
@@ -770,6 +810,7 @@ func (s *sim) run() {
 			emit(map[string]any{"ev": "poolcheck", "open": open, "n": len(s.pooled)})
 		}
 	}
+	s.sysSnap()
 	// release anything still held so goroutines end, then stop background activity
 	ids := []int{}
 	for id := range s.held {
